@@ -284,6 +284,11 @@ func c11RawCases() []c11Raw {
 		// todo exemption: attributes are not checked, the name is
 		{"todo-invalid-attributes", "services:\n  s:\n    todo: true\n    getter: MustX\n    constructor: \"not a func\"\n    type: \"**\"\n    value: \"{}\"\n    tags: [\"bad tag\", \"bad tag\"]\n    fields: {\"1\": [1]}\n    calls: [[\"M-\"]]\n    arguments: [[1]]\n", "accept"},
 		{"todo-invalid-name", "services:\n  \"bad name\":\n    todo: true\n", "input:service:bad name|name"},
+		{"todo-shares-getter-with-a-real-service", "services:\n  ph:\n    todo: true\n    getter: GetX\n  real:\n    constructor: fx/lib.NewObj\n    getter: GetX\n", "accept"},
+		{"two-todos-share-getter-with-a-real-service", "services:\n  ph1:\n    todo: true\n    getter: GetX\n  ph2:\n    todo: true\n    getter: GetX\n  real:\n    constructor: fx/lib.NewObj\n    getter: GetX\n  z:\n    todo: true\n    getter: GetX\n", "accept"},
+		{"todos-share-getter-among-themselves", "services:\n  ph1:\n    todo: true\n    getter: GetX\n  ph2:\n    todo: true\n    getter: GetX\n", "accept"},
+		{"todo-with-reserved-getter-and-must-getter-without-getter", "services:\n  ph1:\n    todo: true\n    getter: Get\n  ph2:\n    todo: true\n    must_getter: true\n  real:\n    constructor: fx/lib.NewObj\n    getter: GetReal\n", "accept"},
+		{"todo-duplicate-still-reported-for-the-real-ones", "services:\n  ph:\n    todo: true\n    getter: GetX\n  r1:\n    constructor: fx/lib.NewObj\n    getter: GetX\n  r2:\n    constructor: fx/lib.NewObj\n    getter: GetX\n", "input:service:r2|getter"},
 		{"todo-false-invalid", "services:\n  s:\n    todo: false\n    getter: MustX\n    constructor: fx/lib.NewObj\n", "input:service:s|getter"},
 	}
 	return r
